@@ -148,14 +148,15 @@ Section Hist.
   Variable glob : string -> string -> gres.
   Variable info : string -> uinfo.
   Variable ro : bool.
+  Variable nf : errkind.
   Variable cs : list client.
 
   Notation validate := (C03_Handlers.validate glob info).
   Notation loopf := (fun u => u_loop (info u)).
-  Notation authorize := (authorize glob info ro cs).
-  Notation callback := (callback info cs).
-  Notation step := (step glob info ro cs).
-  Notation run := (run glob info ro cs).
+  Notation authorize := (authorize glob info ro nf cs).
+  Notation callback := (callback info nf cs).
+  Notation step := (step glob info ro nf cs).
+  Notation run := (run glob info ro nf cs).
   Notation registered := (registered glob info).
   Notation safe_out := (safe_out glob info cs).
 
@@ -183,13 +184,26 @@ Section Hist.
     destruct (response_url info u rt m code) eqn:E; [eapply response_url_from; eauto | left; reflexivity].
   Qed.
 
-  Lemma lookup_find f id c : lookup_client cs f id = Some c -> find_client cs id = Some c.
-  Proof. destruct f; cbn; congruence. Qed.
+  Lemma arek_from u rt m k : from_uri u (auth_request_error_k info u rt m k).
+  Proof. unfold auth_request_error_k. destruct (err_code k); [apply are_from | left; reflexivity]. Qed.
+
+  Lemma terk_from u rt m k : from_uri u (try_error_redirect_k info u rt m k).
+  Proof. unfold try_error_redirect_k. destruct (err_code k); [apply ter_from | left; reflexivity]. Qed.
+
+  Lemma legacy_page_is_page k : is_page (legacy_page k) = true.
+  Proof. destruct k; reflexivity. Qed.
+
+  Lemma lookup_find f id c :
+    lookup_client nf cs f id = inr c ->
+    find_client cs id = Some c /\ match f with AF_GetClient _ => false | _ => true end = true.
+  Proof. destruct f; cbn; try discriminate; destruct (find_client cs id); intro H; inversion H; auto. Qed.
 
   (* every answer of the authorization endpoint *)
   Definition authorize_shape (st : list sreq) (q : areq) (r : list sreq * out) : Prop :=
     (fst r = st /\ is_page (snd r) = true) \/
-    exists c, find_client cs (q_client q) = Some c /\ validate c (q_uri q) (q_rt q) = VOk /\
+    exists c, find_client cs (q_client q) = Some c /\
+      match q_fault q with AF_GetClient _ => false | _ => true end = true /\
+      validate c (q_uri q) (q_rt q) = VOk /\
       ((fst r = st /\ from_uri (q_uri q) (snd r) /\ is_login (snd r) = false) \/
        (fst r = st ++ [new_req q] /\ snd r = OLogin (c_login c))).
 
@@ -202,33 +216,38 @@ Section Hist.
   Proof. intros [H|[fr [code [cq [cf [_ ->]]]]]]; [destruct x; cbn in *; congruence | reflexivity]. Qed.
 
   Lemma authorize_provider_shape st q :
-    authorize_shape st q (authorize_provider glob info ro cs st q).
+    authorize_shape st q (authorize_provider glob info ro nf cs st q).
   Proof.
     unfold authorize_provider, authorize_shape.
     destruct (q_malformed q); [left; auto|].
     destruct (q_reqobj q && ro); [left; auto|].
     destruct (String.eqb (q_client q) ""); [left; auto|].
     destruct (String.eqb (q_uri q) ""); [left; auto|].
-    destruct (lookup_client cs (q_fault q) (q_client q)) as [c|] eqn:El; [|left; auto].
-    apply lookup_find in El.
+    destruct (lookup_client nf cs (q_fault q) (q_client q)) as [k|c] eqn:El; [left; auto|].
+    apply lookup_find in El as [El Hf].
     destruct (validate c (q_uri q) (q_rt q)) eqn:Ev; [|left; auto|left; auto].
-    right. exists c. split; [assumption|]. split; [assumption|].
-    split_ifs; cbn [fst snd];
+    right. exists c. split; [assumption|]. split; [assumption|]. split; [assumption|].
+    repeat match goal with
+           | |- context [if ?b then _ else _] => destruct b eqn:?
+           | |- context [match fault_create ?f with _ => _ end] => destruct (fault_create f) eqn:?
+           end; cbn [fst snd];
       try (left; split; [reflexivity|]; split;
-           [apply are_from | eapply from_uri_not_login, are_from]).
+           [first [apply are_from | apply arek_from]
+           | eapply from_uri_not_login; first [apply are_from | apply arek_from]]).
     right. auto.
   Qed.
 
   Lemma authorize_legacy_shape st q :
-    authorize_shape st q (authorize_legacy glob info ro cs st q).
+    authorize_shape st q (authorize_legacy glob info ro nf cs st q).
   Proof.
     unfold authorize_legacy, authorize_shape.
     destruct (q_malformed q); [left; auto|].
     destruct (q_reqobj q && negb ro); [left; auto|].
     destruct (q_reqobj q); [left; auto|].
     destruct (String.eqb (q_client q) ""); [left; auto|].
-    destruct (lookup_client cs (q_fault q) (q_client q)) as [c|] eqn:El; [|left; auto].
-    apply lookup_find in El.
+    destruct (lookup_client nf cs (q_fault q) (q_client q)) as [k|c] eqn:El;
+      [left; split; [reflexivity | apply legacy_page_is_page]|].
+    apply lookup_find in El as [El Hf].
     destruct (String.eqb (q_uri q) ""); [left; auto|].
     destruct (prompt_bad (q_prompt q)); [left; auto|].
     destruct (q_noscope q); [left; auto|].
@@ -236,10 +255,14 @@ Section Hist.
     destruct (String.eqb (q_rt q) ""); [left; auto|].
     destruct (negb (string_in (q_rt q) (c_rtypes c))); [left; auto|].
     destruct (q_hint_bad q); [left; auto|].
-    right. exists c. split; [assumption|]. split; [assumption|].
-    split_ifs; cbn [fst snd];
+    right. exists c. split; [assumption|]. split; [assumption|]. split; [assumption|].
+    repeat match goal with
+           | |- context [if ?b then _ else _] => destruct b eqn:?
+           | |- context [match fault_create ?f with _ => _ end] => destruct (fault_create f) eqn:?
+           end; cbn [fst snd];
       try (left; split; [reflexivity|]; split;
-           [apply ter_from | eapply from_uri_not_login, ter_from]).
+           [first [apply ter_from | apply terk_from]
+           | eapply from_uri_not_login; first [apply ter_from | apply terk_from]]).
     right. auto.
   Qed.
 
@@ -298,6 +321,8 @@ Section Hist.
     2:{ destruct f; split; try (left; reflexivity). }
     assert (Her : forall code, success_from s (auth_request_error info (s_uri s) (s_rt s) (s_mode s) code))
       by (intro; left; apply are_from).
+    assert (Herk : forall k, success_from s (auth_request_error_k info (s_uri s) (s_rt s) (s_mode s) k))
+      by (intro; left; apply arek_from).
     destruct f; cbn [fst snd];
       try (split; [left|left]; reflexivity);
       destruct (negb (s_alive s)); cbn [fst snd]; try (split; [left|left]; reflexivity);
@@ -314,7 +339,7 @@ Section Hist.
   Proof.
     intro H. destruct o as [r q|k|r k f]; cbn [step].
     - pose proof (authorize_has_shape r st q) as S. unfold authorize_shape in S.
-      destruct S as [[-> _]|[c [Hc [Hv [[-> _]|[-> _]]]]]]; try assumption.
+      destruct S as [[-> _]|[c [Hc [Hnf [Hv [[-> _]|[-> _]]]]]]]; try assumption.
       apply Forall_app. split; [assumption|]. constructor; [|constructor].
       exists c. cbn. auto.
     - cbn. apply update_nth_valid; auto using mark_done_valid.
@@ -351,9 +376,13 @@ Section Hist.
 
   Lemma must_page_no_validate q c :
     must_page glob info cs q = true -> find_client cs (q_client q) = Some c ->
+    match q_fault q with AF_GetClient _ => false | _ => true end = true ->
     validate c (q_uri q) (q_rt q) = VOk -> False.
   Proof.
-    unfold must_page. intros Hm Hc Hv. rewrite Hc in Hm.
+    unfold must_page. intros Hm Hc Hnf Hv. rewrite Hc in Hm.
+    replace (match q_fault q with AF_GetClient _ => true | _ => false end) with false in Hm
+      by (destruct (q_fault q); cbn in *; congruence).
+    rewrite orb_false_r in Hm.
     pose proof (validate_ok_registered glob loopf c _ _ Hv) as Hr.
     unfold registeredb in Hr. apply andb_true_iff in Hr as [Hr _]. apply andb_true_iff in Hr as [Hu Hmm].
     unfold matching in Hm. rewrite Hmm in Hm. cbn in Hm. rewrite orb_false_r in Hm.
@@ -382,7 +411,7 @@ Section Hist.
     pose proof (step_valid st o Hst) as Hst'. rewrite Es in Hst'. cbn [fst] in Hst'.
     destruct o as [r q|k|r k f]; cbn [step] in Es; cbn [spec_hist].
     - pose proof (authorize_has_shape r st q) as S. rewrite Es in S. unfold authorize_shape in S. cbn [fst snd] in S.
-      destruct S as [[-> Hp]|[c [Hc [Hv [[-> [Hf Hl]]|[-> ->]]]]]].
+      destruct S as [[-> Hp]|[c [Hc [Hnf [Hv [[-> [Hf Hl]]|[-> ->]]]]]]].
       + rewrite Hp, (page_target_ok _ _ _ _ Hp), (page_login_ok _ _ Hp), (page_not_login _ Hp).
         destruct (must_page glob info cs q); cbn; apply IH; assumption.
       + destruct (must_page glob info cs q) eqn:Em; [exfalso; eapply must_page_no_validate; eauto|].
@@ -426,7 +455,7 @@ Section Hist.
   Proof.
     intro Hst. destruct o as [r q|k|r k f]; cbn [step].
     - pose proof (authorize_has_shape r st q) as S. unfold authorize_shape in S.
-      destruct S as [[_ Hp]|[c [Hc [Hv [[_ [Hf _]]|[_ ->]]]]]].
+      destruct S as [[_ Hp]|[c [Hc [Hnf [Hv [[_ [Hf _]]|[_ ->]]]]]]].
       + destruct (snd (authorize r st q)); cbn in Hp; try discriminate. exact I.
       + eapply from_uri_safe; eauto using find_client_In.
       + exact I.
@@ -450,33 +479,34 @@ Section Hist.
   Qed.
 
   Theorem direct_error r st q :
-    q_uri q = "" \/ find_client cs (q_client q) = None \/
+    q_uri q = "" \/ (exists k, q_fault q = AF_GetClient k) \/ find_client cs (q_client q) = None \/
     (exists c, find_client cs (q_client q) = Some c /\ matches glob loopf c (q_uri q) = false) ->
     exists status code, authorize r st q = (st, OPage status code).
   Proof.
     intro H.
     assert (Hm : must_page glob info cs q = true).
-    { unfold must_page. destruct H as [->|[->|[c [-> Hc]]]]; cbn; auto.
+    { unfold must_page. destruct H as [->|[[k ->]|[->|[c [-> Hc]]]]]; cbn; auto.
+      - rewrite orb_true_r. reflexivity.
       - apply orb_true_r.
       - unfold matching. rewrite Hc. apply orb_true_r. }
     pose proof (authorize_has_shape r st q) as S. unfold authorize_shape in S.
     destruct (authorize r st q) as [st' x]. cbn [fst snd] in S.
-    destruct S as [[-> Hp]|[c [Hc [Hv _]]]].
+    destruct S as [[-> Hp]|[c [Hc [Hnf [Hv _]]]]].
     - destruct x; cbn in Hp; try discriminate. eauto.
     - exfalso. eapply must_page_no_validate; eauto.
   Qed.
 End Hist.
 
-Theorem run_safe_from_empty glob info ro cs ops :
-  Forall (safe_out glob info cs) (run glob info ro cs [] ops).
+Theorem run_safe_from_empty glob info ro nf cs ops :
+  Forall (safe_out glob info cs) (run glob info ro nf cs [] ops).
 Proof. apply run_safe. constructor. Qed.
 
 Theorem spec_model : forall i, spec i (model i) = true.
 Proof.
-  intros [c u rt t|ro cs t ops]; cbn [model spec].
+  intros [c u rt t|ro nf cs t ops]; cbn [model spec].
   - destruct (validate_redirect _ _ c u rt) eqn:E; auto.
     unfold registered. apply validate_ok_registered, E.
-  - apply (spec_hist_run (glob_of (t_glob t)) (info_of (t_uri t)) ro cs ops []). constructor.
+  - apply (spec_hist_run (glob_of (t_glob t)) (info_of (t_uri t)) ro nf cs ops []). constructor.
 Qed.
 
 (* ---- non-vacuity: a concrete flow that ends in a success redirect, and one that is refused ---- *)
@@ -493,7 +523,7 @@ Definition ex_req (u : string) : areq :=
      q_prompt := P_Ok; q_noscope := false; q_hint_bad := false; q_fault := AF_None |}.
 
 Example C03_nonvacuous :
-  run ex_glob ex_info true [ex_client] []
+  run ex_glob ex_info true EK_Plain [ex_client] []
       [Authorize Provider (ex_req "https://sub.example.com/cb"); Login 0; Callback Legacy (Some 0) CF_None;
        Authorize Legacy (ex_req "https://evil.example/cb"); Authorize Provider (ex_req "https://evil.example/cb")]
   = [OLogin "/login?id="; ONone; ORedirect false "" "https://sub.example.com/cb"; OPage 400 "invalid_request"; OPage 400 ""].
